@@ -19,7 +19,7 @@ PROP = {
 # end-to-end (connection-level) pass: real hsmsss / secs1 connections over net.Pipe under random
 # Open/Close/peer histories; a Go-side monitor checks the recorded log (harness/cmd/c05e2e).
 
-E2E_N = {"quick": 624, "thorough": 12000}
+E2E_N = {"quick": 634, "thorough": 12000}
 
 
 def custom(run, tier):
@@ -60,6 +60,12 @@ def custom(run, tier):
                % (hist.get("straggler:linktestT6", 0), hist.get("straggler:peerClose", 0), hist.get("straggler:released-after-gen2-selected", 0)),
                hist.get("straggler:linktestT6", 0) > 0 and hist.get("straggler:peerClose", 0) > 0
                and hist.get("straggler:released-after-gen2-selected", 0) * 2 >= hist.get("class:straggler", 0) > 0, str(hist))
+    pw = {k: v for k, v in hist.items() if k.startswith("parkwrite:") and "active=" in k}
+    run.oblige("e2e: parked-write history (late write failure of generation N after N+1 is Selected) reached its release point in %d of %d runs; variants %s"
+               % (hist.get("parkwrite:released-after-gen2-selected", 0), hist.get("class:parkwrite", 0), sorted(pw)),
+               hist.get("parkwrite:released-after-gen2-selected", 0) * 2 >= hist.get("class:parkwrite", 0) > 0
+               and any("peerClose" in k for k in pw) and any("closeOpen" in k for k in pw)
+               and any("active=True" in k or "active=true" in k for k in pw) and any("active=False" in k or "active=false" in k for k in pw), str(hist))
     run.oblige("e2e: no goroutine of the rig or of the library outlives the last Close", hist.get("goroutines-left", 0) == 0,
                "\n".join(summary.get("notes") or []))
     run.trusted.append("e2e rig harness/cmd/c05e2e: scripted raw-frame HSMS peer (and an idle SECS-I line) over net.Pipe through the public "
